@@ -684,6 +684,26 @@ macro_rules! per_crate {
                             }
                         }
                     } else {
+                        // directed: a small pair whose key sorts directly before (or after) a key that holds a value of a
+                        // page or more -- such a value sits alone in its leaf ("single large value"), possibly a page
+                        // committed by an earlier transaction, and the insert takes the sibling fast path
+                        if c.k == Ty::U64 && c.v == Ty::Bytes && r.chance(1, 5) {
+                            let big: Vec<u64> = working
+                                .tables
+                                .get(&t)
+                                .map(|st| st.normal.iter().filter_map(|(k, v)| match (k, v) {
+                                    (Ow::U64(k), Ow::Bytes(v)) if v.len() >= self.page_size => Some(*k),
+                                    _ => None,
+                                }).collect())
+                                .unwrap_or_default();
+                            if !big.is_empty() {
+                                let k = *r.pick(&big);
+                                let nk = if r.chance(2, 3) { k.wrapping_sub(1) } else { k.wrapping_add(1) };
+                                self.stats.op("insert_next_to_large");
+                                let n = r.range(0, 20) as usize;
+                                return Op::Ins(Ow::U64(nk), Ow::Bytes(r.bytes(n)));
+                            }
+                        }
                         match r.below(40) {
                             0..=24 => {
                                 self.stats.op("insert");
